@@ -11,6 +11,7 @@ import (
 	"fmt"
 	"go/token"
 	"go/types"
+	"os"
 	"sort"
 
 	"golang.org/x/tools/go/ssa"
@@ -200,7 +201,7 @@ func (r *Region) Origins(v RV) []RV {
 				return
 			}
 			// field of a struct value that is a literal built elsewhere in the region (a helper's result, an argument)
-			if r.walkLiteralField(RV{V: x.X, C: c}, x.Field, func(fv RV) { walk(fv.V, fv.C, via, d+1) }) {
+			if r.walkLiteralField(RV{V: x.X, C: c}, x.Field, func(fv RV) { walk(fv.V, fv.C, append(append([]RB{}, via...), fv.Via...), d+1) }) {
 				return
 			}
 		case *ssa.UnOp:
@@ -247,7 +248,7 @@ func (r *Region) Origins(v RV) []RV {
 				if al, ok := fa.X.(*ssa.Alloc); ok {
 					if sv := wholeStore(al); sv != nil {
 						if _, isStruct := sv.Type().Underlying().(*types.Struct); isStruct {
-							if r.walkLiteralField(RV{V: sv, C: c}, fa.Field, func(fv RV) { walk(fv.V, fv.C, via, d+1) }) {
+							if r.walkLiteralField(RV{V: sv, C: c}, fa.Field, func(fv RV) { walk(fv.V, fv.C, append(append([]RB{}, via...), fv.Via...), d+1) }) {
 								return
 							}
 						}
@@ -308,10 +309,18 @@ func (r *Region) Origins(v RV) []RV {
 	return out
 }
 
+var dbgRegion = os.Getenv("VERIF_DEBUG") == "region"
+var os2 = os.Stderr
+
 // walkLiteralField: sv is a struct value; for every origin of it that is a composite literal (a local assigned field by
 // field) calls visit with what the literal stores into field fld; reports whether every origin was such a literal.
 func (r *Region) walkLiteralField(sv RV, fld int, visit func(RV)) bool {
 	os := r.Origins(sv)
+	if dbgRegion {
+		for _, o := range os {
+			fmt.Fprintf(os2, "WLF %s fld=%d origin %T %s\n", sv.V.Name(), fld, o.V, o.V.String())
+		}
+	}
 	if len(os) == 0 {
 		return false
 	}
@@ -339,10 +348,24 @@ func (r *Region) walkLiteralField(sv RV, fld int, visit func(RV)) bool {
 				}
 			}
 		}
+		if n > 1 && onlyFieldAccess(al) {
+			// a result struct filled in step by step (completion.uri = fallback; ...; completion.uri = tracked.URI): every
+			// assignment of the field is an alternative, selected by the condition of its block
+			for _, rf := range *al.Referrers() {
+				if fa, ok := rf.(*ssa.FieldAddr); ok && fa.Field == fld {
+					for _, r2 := range *fa.Referrers() {
+						if s2, ok := r2.(*ssa.Store); ok && s2.Addr == ssa.Value(fa) {
+							vals = append(vals, RV{V: s2.Val, C: o.C, Via: append(append([]RB{}, o.Via...), RB{s2.Block(), o.C})})
+						}
+					}
+				}
+			}
+			continue
+		}
 		if n != 1 {
 			return false
 		}
-		vals = append(vals, RV{V: st.Val, C: o.C})
+		vals = append(vals, RV{V: st.Val, C: o.C, Via: o.Via})
 	}
 	for _, v := range vals {
 		visit(v)
